@@ -146,10 +146,11 @@ type c04World struct {
 	inflight int
 	invokes  int
 	// resolving: commit / rollback requests in flight per root
-	resolving map[string]int
-	open      bool
-	yields    bool
-	cfgs      string
+	resolving       map[string]int
+	sawSameRootRace bool // two requests resolved the same pending root at the same time (open runs only)
+	open            bool
+	yields          bool
+	cfgs            string
 }
 
 func (w *c04World) fail(v *simrt.Violation) {
@@ -394,6 +395,9 @@ func (w *c04World) handlerPanicsRace(op string, race bool) bool {
 			race = true
 		}
 	}
+	if w.sawSameRootRace {
+		race = true
+	}
 	w.mu.Unlock()
 	sig := ps[0].Op
 	if race {
@@ -496,6 +500,11 @@ func (w *c04World) do(c queue.Client, i int) {
 		if root != nil {
 			w.resolving[string(root)]++
 		}
+		if race {
+			// (sticky: the handler that dies may be reported to whichever client
+			// returns first, after the other one has left again)
+			w.sawSameRootRace = true
+		}
 		w.mu.Unlock()
 		if root == nil || len(root) == 0 {
 			return
@@ -554,6 +563,11 @@ func (w *c04World) do(c queue.Client, i int) {
 		race := root != nil && w.resolving[string(root)] > 0
 		if root != nil {
 			w.resolving[string(root)]++
+		}
+		if race {
+			// (sticky: the handler that dies may be reported to whichever client
+			// returns first, after the other one has left again)
+			w.sawSameRootRace = true
 		}
 		w.mu.Unlock()
 		if root == nil {
